@@ -203,6 +203,10 @@ replace %s => %s
 		must(os.MkdirAll(filepath.Dir(filepath.Join(rdir, "scen", f)), 0755))
 		must(os.WriteFile(filepath.Join(rdir, "scen", f), bytes.ReplaceAll(data, []byte("go-restli/v2/"), []byte("go-restli/")), 0644))
 	}
+	// S6 (generator and cleaner as simulated processes) is module-agnostic source: copied as it is
+	if out, err := run(verifDir, goEnv, "cp", "-r", filepath.Join(verifDir, "scen", "s6"), filepath.Join(rdir, "scen", "s6")); err != nil {
+		die(2, "copy scen/s6: %v %s", err, out)
+	}
 	// S4 (client -> simulated HTTP -> server) against the root module: the same sources, transformed
 	s4files, _ := filepath.Glob(filepath.Join(verifDir, "scen", "s4", "*.go"))
 	must(os.MkdirAll(filepath.Join(rdir, "scen", "s4"), 0755))
@@ -436,7 +440,17 @@ func buildScenario(b *Batch) *builtBin {
 	gensimPath := ""
 	if b.GenSim {
 		gensimPath = filepath.Join(scratch, fmt.Sprintf("gensim%d", idx))
-		out, err = run(scratch, goEnv, "go", "build", "-overlay", overlay, "-o", gensimPath, "verif/cmd/gensim")
+		if b.Module == "root" {
+			// the root module's generator: its driver lives in the root scratch module (verif only requires v2)
+			rdir := filepath.Join(scratch, "r")
+			src, rerr := os.ReadFile(filepath.Join(verifDir, "overlayfiles", "rootgensim", "main.go.txt"))
+			must(rerr)
+			must(os.MkdirAll(filepath.Join(rdir, "rootgensim"), 0755))
+			must(os.WriteFile(filepath.Join(rdir, "rootgensim", "main.go"), src, 0644))
+			out, err = run(rdir, goEnv, "go", "build", "-overlay", overlay, "-o", gensimPath, "./rootgensim")
+		} else {
+			out, err = run(scratch, goEnv, "go", "build", "-overlay", overlay, "-o", gensimPath, "verif/cmd/gensim")
+		}
 		if err != nil {
 			die(2, "building the simulated generator failed (exit 2: build trouble, not a violation): %v\n%s", err, out)
 		}
@@ -478,6 +492,11 @@ func workerEnv(b *Batch, prop string, extra ...string) []string {
 		tmp := filepath.Join(scratch, "tmp")
 		os.MkdirAll(tmp, 0755)
 		env = append(env, "VW_FAMILY_DIR="+filepath.Join(verifDir, "family"), "VW_REPO_V2="+filepath.Join(repoDir, "v2"), "VW_TMP="+tmp)
+		if b.Module == "root" {
+			env = append(env, "VW_MODDIR="+filepath.Join(scratch, "r"))
+		} else {
+			env = append(env, "VW_MODDIR="+scratch)
+		}
 	}
 	own := prop
 	if spec, ok := props[prop]; ok {
